@@ -1,6 +1,21 @@
 HOOK_COMMITS = []
 NOT_APPLICABLE = {}
 TEXT = {
+    "C01": {
+        "technique": "rapid string generators + full scalar-value enumeration over compiled sink fixtures, metamorphic oracle through an HTML5 tokenizer",
+        "level": "Exploration: 41 fixture placements covering every sink kind of the quantifier (text incl. RCDATA and control flow, string attributes incl. conditional, spread string/*string/KeyValue, class entries in every container form, style results, href/action, JSON script id/type/nonce, script nonces) are generated with /repo's generator and compiled at check time; each is rendered with a benign reference string and with generated strings (token sequences over an HTML-adversarial alphabet, every Unicode scalar value in the thorough tier, invalid UTF-8, arbitrary strings) and golang.org/x/net/html's tokenizer must see identical structure with the string verbatim where the reference was. Right level: the escaper is per-sink code, so per-sink exhaustive-by-character plus random sequences is what reveals a missing or wrong escape.",
+        "note": "Trusted: x/net/html tokenizer as the HTML5 tokenizer (its CR->LF and RCDATA NUL->U+FFFD normalisations applied to expectations); the fixtures as representatives of 'all surrounding markup' (generated-program surroundings are covered by C02's check). For style/href the expected value is the sanitiser's result.",
+    },
+    "C04": {
+        "technique": "bounded exhaustive enumeration + rapid mutation of XSS vectors against an independent WHATWG scheme extractor; go/types for the typing clause",
+        "level": "Exploration: all sequences of <=3 (quick) / <=5 (thorough, 24M) tokens over a 30-token adversarial alphabet and all strings of <=5/<=7 characters over {a,A,:,/,\\,TAB,space,?} are enumerated completely; rapid adds long strings and mutated XSS vectors; templ.URL's result must be the input or the failure URL and may be the input only if the independent extractor sees no scheme or an allow-listed one; the rendered href/action (compiled fixtures) must tokenize to one attribute with that value. Typing clause: 112 generated templates (element x attribute position x expression type) must be rejected by go/types for plain strings and accepted for SafeURL.",
+        "note": "Trusted: oracle/urlscheme as the browser's scheme detection; one-directional oracle (over-rejection allowed). go/types with the source importer stands in for the compiler.",
+    },
+    "C05": {
+        "technique": "bounded exhaustive enumeration + rapid shaped values against an independent CSS Syntax 3 tokenizer/parser, function level and through compiled css-component / style-attribute fixtures",
+        "level": "Exploration: values = all sequences of <=3 (quick) / <=4 (thorough) tokens over a 29-token CSS-adversarial alphabet x 17 property names of every class, plus rapid-generated url()/quoted/comma-list shapes and generated names; the emitted text is embedded in a rule list and parsed by an independent CSS tokenizer/parser: the author's rules and declarations must be intact and the value free of ';', blocks, comments, bad tokens, at-keywords, non-url functions, forbidden url schemes and </style. Rendered: css component in <style>, style={map}, style={KV}, style={[]any} fixtures decoded by the HTML tokenizer first.",
+        "note": "Trusted: oracle/csstok as the browser's CSS parser, oracle/urlscheme for url() arguments. SafeCSS/SafeCSSProperty/plain string style values are documented pass-throughs and not checked.",
+    },
     "C17": {
         "technique": "bounded exhaustive enumeration + rapid edit-sequence generation against a byte-splice reference model",
         "level": "Exploration: every single edit on every document of <=4 (quick) / <=6 (thorough) characters over {a,LF} with every ordered range up to 2 beyond the document and 5 replacement texts is enumerated completely, and rapid generates long multi-byte documents with sequences of up to 40 open/full-replace/incremental edits including out-of-range positions; after every step Document.String() is compared with an independent byte-splice model using LSP clamping. This is the right level because the document type is a pure function of the edit history and small documents already exercise every branch (insert/delete/overwrite/whole-document, clamping).",
